@@ -168,6 +168,8 @@ static uint8_t odd(struct vf_rng *r)
 	return (uint8_t)((c15_popcount8(c) & 1) ? c : (c | 0x80));
 }
 
+static int hdr_c11 = -1;         /* -1: C11 at random (pages are sent one after the other, both readings agree); long mode: 0 = parallel */
+
 static void make_header(struct vf_rng *r, uint8_t b[42], int pgno, int stream, int ci, int n)
 {
 	int i;
@@ -180,7 +182,11 @@ static void make_header(struct vf_rng *r, uint8_t b[42], int pgno, int stream, i
 	b[6] = c15_ham84((unsigned)stream);
 	b[7] = c15_ham84((unsigned)((n >> 3) & 3) | vf_below(r, 4) << 2);        /* S4 + C5 C6 */
 	b[8] = c15_ham84(vf_below(r, 16));
-	b[9] = c15_ham84(vf_below(r, 16));
+	{
+		unsigned c = vf_below(r, 16);   /* C11 (magazine serial) C12-C14 */
+		if (hdr_c11 >= 0) c = (c & ~1u) | (unsigned)hdr_c11;
+		b[9] = c15_ham84(c);
+	}
 	for (i = 10; i < 42; i++) b[i] = odd(r);
 }
 
@@ -274,7 +280,10 @@ static void free_got(void)
  * lost, so the strict model ignores it; the receiver of the open finding (any uncorrectable error -> wait for
  * the next page header) cannot tell such a packet from one of its own.  Only consulted when the finding's model
  * does not explain the deliveries without it. */
-static int use_xevents, n_xevents;
+/* Second class (bit 1): parallel transmission (C11 = 0), a page header of another magazine while a page of this
+ * stream is open.  It does not end the page; a receiver that takes every header for the end of the page it is
+ * receiving discards the rest of the page.  Own key. */
+static int use_xevents, n_xevents, n_pevents;
 
 static void classify(void)
 {
@@ -291,14 +300,14 @@ static void classify(void)
 	for (g = 0; g < n_pg; g++) {
 		int dead = pg[g].hdr_killed, rdead = 0, qrdead = 0;
 		if (pg[g].rst_before) { synced = 0; pending = -1; }     /* long mode: reset between two pages */
-		if (use_xevents && pg[g].qrst_before) { synced = 0; pending = -1; }
+		if (use_xevents & pg[g].qrst_before) { synced = 0; pending = -1; }
 		for (p = pg[g].first; p < pg[g].first + pg[g].n; p++) {
 			if (pg[g].hdr_killed) dp[p].killed = 1;
 			/* long mode: rows fed after vbi_pfc_demux_reset() belong to no page until a header comes */
 			if (dp[p].rst) rdead = 1;
 			if (rdead) dp[p].killed = 1;
 			if (dp[p].killed) { dead = 1; pending = -1; }
-			if (use_xevents && dp[p].qrst) qrdead = 1;
+			if (use_xevents & dp[p].qrst) qrdead = 1;
 			if (qrdead) { dead = 1; pending = -1; }
 			if (!dead && pending >= 0) {
 				if (dp[p].kind[0] == K_SH && dp[p].owner[0] == pending) dead = 1;
@@ -339,7 +348,7 @@ static void classify(void)
 			}
 		}
 		if (b->rst_cut) dmg = 1;
-		if (dmg || (use_xevents && b->qrst_cut)) qdmg = 1;
+		if (dmg || (use_xevents & b->qrst_cut)) qdmg = 1;
 		b->strict = dmg ? 0 : (touch_err || b->size == 0) ? 1 : 2;
 		b->quirk = qdmg ? 0 : (touch_err || b->size == 0) ? 1 : 2;
 		if (b->cbf_zone) {              /* not specified: may be delivered or not */
@@ -421,10 +430,11 @@ static void evaluate(const char *iface, int faults)
 		if (blk[i].strict == 2 && !blk[i].ndeliv) { strict_ok = 0; if (first_missing < 0) first_missing = i; }
 	if (strict_ok) return;
 	{
-		int bad, why = quirk_explains(&bad), with_x = 0;
-		if (why && n_xevents) {         /* long mode, two streams */
-			use_xevents = 1; classify();
-			if (0 == quirk_explains(&bad)) { why = 0; with_x = 1; }
+		int bad, why = quirk_explains(&bad), with_x = 0, m;
+		for (m = 1; why && m <= 3; m++) {       /* long mode, two streams */
+			if (((m & 1) && !n_xevents) || ((m & 2) && !n_pevents)) continue;
+			use_xevents = m; classify();
+			if (0 == quirk_explains(&bad)) { why = 0; with_x = m; }
 			use_xevents = 0; classify();
 			if (why) quirk_explains(&bad);
 		}
@@ -437,11 +447,18 @@ static void evaluate(const char *iface, int faults)
 			vf_fail("model:C15:pfc:not-delivered", "%s: inconsistent resynchronisation: %s delivered although the rest of its page was discarded", iface, describe(bad));
 			return;
 		}
+		if (with_x & 2) {
+			vf_fail("model:C15:pfc:Q-page-ended-by-header-of-other-magazine",
+				"%s: %s is undamaged but not delivered; parallel transmission (C11 = 0 in every page header): explained exactly by a receiver that takes a page header of another magazine for the end of the page it is receiving and then waits for the next header of its stream%s",
+				iface, describe(first_missing), (with_x & 1) ? " (and does the same after a packet of the other stream with an unreadable address)" : "");
+			vf_count("pfc_long_quirk_header_of_other_magazine", 1);
+			return;
+		}
 		vf_fail("model:C15:pfc:Q-rest-of-page-discarded",
 			"%s: %s is undamaged but not delivered; the difference to 'exactly the damaged blocks are missing' is explained exactly by the receiver ignoring every packet after a loss until the next page header%s",
-			iface, describe(first_missing), with_x ? " (counting as a loss a packet of another stream whose address or page number is unreadable: the receiver cannot tell it from one of its own)" : "");
+			iface, describe(first_missing), (with_x & 1) ? " (counting as a loss a packet of another stream whose address or page number is unreadable: the receiver cannot tell it from one of its own)" : "");
 		vf_count("pfc_quirk_rest_of_page", 1);
-		if (with_x) vf_count("pfc_long_quirk_by_unreadable_packet_of_other_stream", 1);
+		if (with_x & 1) vf_count("pfc_long_quirk_by_unreadable_packet_of_other_stream", 1);
 	}
 }
 
@@ -734,7 +751,7 @@ struct pstrm {
 	vbi_pfc_demux *dx;
 	int cb_cursor, cbf_now;
 	int n_reset, reset_at[4];
-	int alias, kinds, nfired, ncut, n_x;
+	int alias, kinds, nfired, ncut, n_x, n_p;
 };
 static struct pstrm ps[2];
 static int cur_ps;
@@ -810,7 +827,7 @@ static void judge_long(int k, const char *iface)
 	ps[k].nfired = 0;
 	for (i = 0; i < n_blk; i++) ps[k].nfired += blk[i].fired;
 	if (!ps[k].alias) {
-		n_xevents = ps[k].n_x; use_xevents = 0;
+		n_xevents = ps[k].n_x; n_pevents = ps[k].n_p; use_xevents = 0;
 		classify_long();
 		if (vf_verbose)
 			for (i = 0; i < n_blk; i++)
@@ -821,22 +838,24 @@ static void judge_long(int k, const char *iface)
 }
 
 /* vbi_pfc_demux_reset() of the current stream's context right before wire packet wi is fed (quirk_only: the
- * receiver of the open finding resets itself there, see use_xevents) */
+ * receiver of the open finding resets itself there, see use_xevents: 1 unreadable packet, 2 header of another
+ * magazine in parallel transmission) */
 static void mark_reset(int k, int wi, int quirk_only)
 {
 	int j, P, Pend;
 	for (j = wi; j < n_wp; j++) if (wp[j].type != W_FOREIGN && wp[j].strm == k) break;
 	if (j >= n_wp) return;
 	if (wp[j].type == W_HDR) {
-		if (quirk_only) pg[wp[j].idx].qrst_before = 1; else pg[wp[j].idx].rst_before = 1;
+		if (quirk_only == 2) return;    /* the page of this stream is complete: a foreign header changes nothing */
+		if (quirk_only) pg[wp[j].idx].qrst_before |= quirk_only; else pg[wp[j].idx].rst_before = 1;
 		P = pg[wp[j].idx].first; Pend = P - 1;
 	} else {
 		P = wp[j].idx; Pend = pg[dp[P].page].first + pg[dp[P].page].n - 1;
-		if (quirk_only) dp[P].qrst = 1; else dp[P].rst = 1;
+		if (quirk_only) dp[P].qrst |= quirk_only; else dp[P].rst = 1;
 	}
 	for (j = 0; j < n_blk; j++) {
 		if (quirk_only) {
-			if (blk[j].first_pkt < P && blk[j].last_pkt >= P) blk[j].qrst_cut = 1;
+			if (blk[j].first_pkt < P && blk[j].last_pkt >= P) blk[j].qrst_cut |= quirk_only;
 			continue;
 		}
 		if (blk[j].first_pkt < P && blk[j].last_pkt >= P) { if (!blk[j].rst_cut) ps[k].ncut++; blk[j].rst_cut = blk[j].rst_hit = 1; }
@@ -871,7 +890,7 @@ static int reset_here(int nstr, int wi)
 int c15_pfc_long_case(struct vf_rng *r, long idx)
 {
 	int nstr, k, i, p, g, nf, kinds = 0, multi = 0, tot_blk = 0, tot_reset = 0, tot_cut = 0, tot_cbf = 0, tot_fired = 0, any_span = 0;
-	int deliv_after_fault = 0, tot_deliv = 0, ret = 1, nfault = 0;
+	int deliv_after_fault = 0, tot_deliv = 0, ret = 1, nfault = 0, par = 0;
 	char why[200];
 	uint8_t *pk = NULL;
 	(void)idx;
@@ -972,8 +991,38 @@ int c15_pfc_long_case(struct vf_rng *r, long idx)
 	}
 	use_stream(0);
 
-	/* the multiplex: whole pages of the two streams in turn (rows follow their header), other traffic around and inside */
-	{
+	/* Parallel transmission (every page header says C11 = 0): a page ends with the next header of its own
+	   magazine, so pages of different magazines are sent row by row at the same time */
+	par = nstr == 2 && ((ps[0].pgno ^ ps[1].pgno) & 0xF00) && vf_chance(r, 1, 2);
+	hdr_c11 = par ? 0 : -1;
+	if (par) {
+		int gi[2] = { 0, 0 }, ri[2] = { -1, -1 };
+		n_wp = 0;
+		for (;;) {
+			int left0 = (ps[0].n_pg - gi[0]) + (ps[0].n_dp - (gi[0] < ps[0].n_pg ? pg_st[0][gi[0]].first + (ri[0] < 0 ? 0 : ri[0]) : ps[0].n_dp));
+			int left1 = (ps[1].n_pg - gi[1]) + (ps[1].n_dp - (gi[1] < ps[1].n_pg ? pg_st[1][gi[1]].first + (ri[1] < 0 ? 0 : ri[1]) : ps[1].n_dp));
+			int o, xmag;
+			struct wpk *w;
+			if (left0 + left1 <= 0) break;
+			k = (int)vf_below(r, (unsigned)(left0 + left1)) < left0 ? 0 : 1;
+			if (gi[k] >= ps[k].n_pg) k = 1 - k;
+			o = 1 - k;
+			xmag = (ps[o].pgno >> 8) & 7;
+			use_stream(k);
+			g = gi[k];
+			if (ri[k] < 0) {
+				while (vf_chance(r, 1, 5)) decoy_page_x(r, ps[k].pgno, ps[k].stream, -1, -1);
+				while (vf_chance(r, 1, 4)) noise_x(r, ps[k].pgno, 0, xmag);
+				if ((w = push(W_HDR, g))) { w->strm = k; make_header(r, w->b, ps[k].pgno, ps[k].stream, pg[g].ci, pg[g].n); }
+				ri[k] = 0;
+			} else {
+				p = pg[g].first + ri[k];
+				while (vf_chance(r, 1, 6)) noise_x(r, ps[k].pgno, 1, xmag);
+				if ((w = push(W_DATA, p))) { w->strm = k; make_data(w->b, ps[k].pgno, dp[p].row, dp[p].bp, dp[p].d); }
+				if (++ri[k] >= pg[g].n) { gi[k]++; ri[k] = -1; }
+			}
+		}
+	} else {
 		int gi[2] = { 0, 0 };
 		n_wp = 0;
 		for (;;) {
@@ -1061,6 +1110,15 @@ int c15_pfc_long_case(struct vf_rng *r, long idx)
 						x |= c15_unham84(wp[i].b[4]) < 0 || c15_unham84(wp[i].b[5]) < 0 || c15_unham84(wp[i].b[6]) < 0 || c15_unham84(wp[i].b[7]) < 0;
 				}
 				if (x) { mark_reset(k, i + 1, 1); ps[k].n_x++; }
+			}
+		/* parallel transmission: page headers of other magazines (the other stream's, decoys) */
+		ps[k].n_p = 0;
+		if (par)
+			for (i = 0; i < n_wp; i++) {
+				int a0 = c15_unham84(wp[i].b[0]), a1 = c15_unham84(wp[i].b[1]);
+				if (a0 < 0 || a1 < 0 || (a0 >> 3) != 0 || a1 != 0) continue;          /* not a readable row 0 */
+				if ((a0 & 7) == ((ps[k].pgno >> 8) & 7)) continue;
+				mark_reset(k, i + 1, 2); ps[k].n_p++;
 			}
 		tot_reset += ps[k].n_reset; tot_cut += ps[k].ncut;
 	}
@@ -1185,11 +1243,13 @@ int c15_pfc_long_case(struct vf_rng *r, long idx)
 	vf_count("pfc_long_callback_false", tot_fired);
 	vf_count("pfc_long_frames_with_several_rows", multi);
 	if (nstr == 2) vf_count("pfc_long_two_contexts", 1);
+	if (par) vf_count("pfc_long_parallel_transmission", 1);
 	if (any_span) vf_count("pfc_long_block_spans_pages", 1);
-	vf_sig("pfc-long blocks=%s two=%d drop=%d hdr=%d hamm=%d nf=%s reset=%s cbf=%d", tot_blk < 60 ? "<60" : tot_blk < 120 ? "<120" : "120+", nstr == 2,
+	vf_sig("pfc-long blocks=%s two=%d par=%d drop=%d hdr=%d hamm=%d nf=%s reset=%s cbf=%d", tot_blk < 60 ? "<60" : tot_blk < 120 ? "<120" : "120+", nstr == 2, par,
 	       !!(kinds & 1), !!(kinds & 2), !!(kinds & (4 | 8)), nfault == 0 ? "0" : nfault < 3 ? "1-2" : "3+",
 	       tot_cut ? "in-block" : tot_reset ? "between" : "none", tot_fired ? 1 : 0);
 out:
+	hdr_c11 = -1;
 	free(pk);
 	for (k = 0; k < 2; k++) {
 		use_stream(k);
